@@ -66,6 +66,15 @@ def run_case(ctx, rng, idx):
         return
     if m <= 4:
         h, uni = gen_hypergraph(rng)
+        if rng.random() < 0.12 and not h.is_weighted():
+            # a hyperedge that lost its only node (remove_node(keep_edges=True) on a singleton): the library may keep it
+            # as the empty hyperedge (); it then has a column of zeros and shares no node with anything, itself included
+            spare = [x for x in history.UNIVERSES[uni] if x not in h.get_nodes()]
+            if spare:
+                h.add_edge((spare[0],))
+                h.remove_node(spare[0], keep_edges=True)
+                if () in h.get_edges():
+                    ctx.event("contains-the-empty-hyperedge")
         static_case(ctx, rng, h, idx, stress=False)
         from ..mutate import same_count_edit
 
@@ -202,6 +211,7 @@ def static_case(ctx, rng, h, idx, stress):
     orders = range(0, mx + 1) if not stress else rng.sample(range(1, mx + 1), 3)
     all_inc = call(la.incidence_matrices_all_orders, h) if not stress else None
     all_lap = call(la.laplacian_matrices_all_orders, h) if not stress else None
+    by_order = {}
     for d in orders:
         sel = [frozenset(e) for e in h.get_edges(order=d)]
         ctx.check("C09:per-order", set(sel) == {k for k in S.edges if len(k) == d + 1}, "C09:oracle-selfcheck", wit)
@@ -217,6 +227,7 @@ def static_case(ctx, rng, h, idx, stress):
                 continue
             ref = np.array([[1 if mp[i] in e else 0 for e in sel] for i in range(len(exp_nodes))]).reshape(len(exp_nodes), len(sel))
             ctx.check("C09:per-order", I.shape == ref.shape and np.array_equal(I, ref), f"C09:incidence_matrix_by_order(keep={keep}):entries", lambda: wit((d, I.tolist(), ref.tolist())))
+            by_order[(d, keep)] = ref
             if not keep and all_inc is not None and not isinstance(all_inc, _Raised) and 1 <= d <= mx - 1:
                 ok = d in all_inc and np.array_equal(dense(all_inc[d]), I)
                 ctx.check("C09:per-order", ok, "C09:incidence_matrices_all_orders:differs-from-by-order", lambda: wit(d))
@@ -252,6 +263,19 @@ def static_case(ctx, rng, h, idx, stress):
         ctx.check("C09:laplacian", L.shape == (N, N) and np.array_equal(L, L.T) and not L.sum(axis=1).any(), "C09:laplacian:not-symmetric-or-rowsum", lambda: wit(d))
         if all_lap is not None and not isinstance(all_lap, _Raised) and 1 <= d <= mx - 1:
             ctx.check("C09:laplacian", d in all_lap and np.array_equal(dense(all_lap[d]), L), "C09:laplacian_matrices_all_orders:differs", lambda: wit(d))
+    if not stress:
+        # the batch route under every flag combination gives, per order, what the single-order route gives
+        for keep in (False, True):
+            for rm in (False, True):
+                r = call(la.incidence_matrices_all_orders, h, keep_isolated_nodes=keep, return_mapping=rm)
+                if isinstance(r, _Raised):
+                    ctx.check("C09:per-order", False, f"C09:incidence_matrices_all_orders(keep={keep},return_mapping={rm}):raised:{type(r.e).__name__}", lambda: wit(r))
+                    continue
+                for d in range(1, mx):
+                    if (d, keep) not in by_order:
+                        continue
+                    ok = isinstance(r, dict) and d in r and hasattr(r[d], "shape") and np.array_equal(dense(r[d]), by_order[(d, keep)])
+                    ctx.check("C09:per-order", ok, f"C09:incidence_matrices_all_orders(keep_isolated_nodes={keep},return_mapping={rm}):differs-from-by-order", lambda: wit((d, keep, rm)))
     if all_lap is not None and isinstance(all_lap, _Raised):
         ctx.check("C09:laplacian", False, f"C09:laplacian_matrices_all_orders:raised:{type(all_lap.e).__name__}", lambda: wit(all_lap))
     if all_inc is not None and isinstance(all_inc, _Raised):
